@@ -140,6 +140,7 @@ def keymaps(tier, typed=False):
         ('keymap(sentinel)', lambda: km.keymap(sentinel=S), True),
         ('hashmap()', lambda: km.hashmap(), False),
         ("hashmap(md5)", lambda: km.hashmap(algorithm='md5'), True),
+        ("hashmap(md5,sentinel)", lambda: km.hashmap(algorithm='md5', sentinel=S), True),
         ("hashmap(md5,flat=False)", lambda: km.hashmap(algorithm='md5', flat=False), True),
         ('stringmap()', lambda: km.stringmap(), True),
         ('stringmap(flat=False)', lambda: km.stringmap(flat=False), True),
